@@ -14,6 +14,8 @@ inductive EErr where
   | stateNotFound (t : String)
   | invalidConfig (msg : String)
   | missingGuard (name : String)
+  | missingAction (name : String)
+  | notSupported (name : String)
 deriving Repr, Inhabited
 
 structure Entry where
